@@ -253,6 +253,24 @@ where
     }
 }
 
+/// Converts an error returned by the [cw_multi_test::App] into the contract's error type.
+///
+/// Errors returned by the contract are downcasted, errors generated by the chain itself
+/// (f.e. unauthorized migration or insufficient funds) are converted via [StdError].
+#[doc(hidden)]
+pub fn into_contract_error<Error>(err: anyhow::Error) -> Error
+where
+    Error: From<StdError> + Debug + Display + Send + Sync + 'static,
+{
+    if err.is::<Error>() {
+        err.downcast::<Error>().unwrap()
+    } else if err.is::<StdError>() {
+        err.downcast::<StdError>().unwrap().into()
+    } else {
+        StdError::generic_err(err.to_string()).into()
+    }
+}
+
 /// Intermiediate proxy to set additional information
 /// before sending an execute message.
 #[must_use]
@@ -330,7 +348,7 @@ where
 impl<'a, 'app, Error, Msg, MtApp, ExecC> MigrateProxy<'a, 'app, Error, Msg, MtApp, ExecC>
 where
     Msg: Serialize + Debug,
-    Error: Debug + Display + Send + Sync + 'static,
+    Error: From<StdError> + Debug + Display + Send + Sync + 'static,
     ExecC: cosmwasm_std::CustomMsg + 'static,
     MtApp: Executor<ExecC>,
 {
@@ -358,7 +376,7 @@ where
                 &self.msg,
                 new_code_id,
             )
-            .map_err(|err| err.downcast().unwrap())
+            .map_err(into_contract_error)
     }
 }
 
